@@ -44,6 +44,14 @@ package common
 // hbTable: the per-guardian node tables exist and none holds more than MaxNodesPerGuardian entries
 //@ pred hbTable(st *GuardianSetState) = st.lastHeartbeats != nil && (forall a in dom(st.lastHeartbeats) :: st.lastHeartbeats[a] != nil && allocated(st.lastHeartbeats[a]) && len(st.lastHeartbeats[a]) <= 15)
 
+// st.mu guards the heartbeat table: hbTable holds whenever the mutex is free, every release has
+// to re-establish it, and a second critical section of the same call cannot rely on what an
+// earlier one saw (other goroutines - the heartbeat sender and the gossip receive loop both call
+// SetHeartbeat - may have run in between).
+//@ monitor (st *GuardianSetState) mu()
+//@   modifies GuardianSetState.lastHeartbeats, map[peer.ID]*gossipv1.Heartbeat, map[common.Address]map[peer.ID]*gossipv1.Heartbeat
+//@   invariant [cap] hbTable(st)
+
 //@ func (st *GuardianSetState) SetHeartbeat(addr common.Address, peerId peer.ID, hb *gossipv1.Heartbeat) (err error)
 //@   props C03
 //@   requires st != nil && hbTable(st)
